@@ -160,18 +160,32 @@ def build_logic(case: "gen.Case", rec: Rec, gtable: Dict[str, Any],
                 extra_actions: Optional[Dict[str, Callable]] = None,
                 services: Optional[Dict[str, Any]] = None,
                 delays: Optional[Dict[str, Any]] = None,
-                names: Optional[List[str]] = None) -> MachineLogic:
-    """Marker actions for every referenced name; table-driven guards."""
+                names: Optional[List[str]] = None, yields: Optional[Dict[str, int]] = None,
+                drop: Optional[List[str]] = None) -> MachineLogic:
+    """Marker actions for every referenced name; table-driven guards.
+
+    `yields` maps marker names to a number of `await asyncio.sleep(0)` yields (async engine
+    only: those markers become coroutine functions); `drop` lists names left unimplemented.
+    """
     log = rec.log
 
     def mk_action(name):
+        n_y = (yields or {}).get(name, 0)
+        if n_y:
+            async def _amarker(interp, ctx, event, action_def, _n=name, _k=n_y):
+                for _ in range(_k):
+                    await asyncio.sleep(0)
+                log.append(("act", _n, event, config_of(interp), threading.get_ident()))
+            return _amarker
+
         def _marker(interp, ctx, event, action_def, _n=name):
             log.append(("act", _n, event, config_of(interp), threading.get_ident()))
         _marker.__name__ = "marker"
         return _marker
 
     actions = {n: mk_action(n) for n in (names if names is not None
-                                         else gen.action_names(case.plan))}
+                                         else gen.action_names(case.plan))
+               if not (drop and n in drop)}
     if extra_actions:
         actions.update(extra_actions)
 
@@ -283,7 +297,11 @@ async def drain(interp, max_yields: int = 20000, settle: int = 4) -> bool:
     calm = 0
     for _ in range(max_yields):
         if interp.status != "running":
-            # let the consumer notice; nothing more will be processed
+            # nothing more will be dequeued, but the consumer may still be inside the macrostep
+            # that ended the machine (awaiting actions): wait for it to leave that macrostep
+            if getattr(interp, "_processing", False):
+                await asyncio.sleep(0)
+                continue
             await asyncio.sleep(0)
             return True
         unfinished = getattr(q, "_unfinished_tasks", None)
@@ -406,3 +424,22 @@ def install_task_wrappers():
             _emit(("sched", state.id, self))
             return _o(self, state)
         BaseInterpreter._schedule_state_tasks = _sched
+
+
+def live_timers(interp) -> Dict[str, int]:
+    """Live `after` timers / owned background tasks per owner state (engine internals; used as
+    an *effect* observation: a timer that silently disappeared shows here)."""
+    out: Dict[str, int] = {}
+    ev = getattr(interp, "_after_events", None)
+    if ev is not None:
+        for k in list(ev.keys()):
+            owner = k.split("::")[0]
+            out[owner] = out.get(owner, 0) + 1
+        return out
+    tm = getattr(interp, "task_manager", None)
+    if tm is not None:
+        for owner, tasks in list(getattr(tm, "_tasks_by_owner", {}).items()):
+            n = sum(1 for t in list(tasks) if not t.done())
+            if n:
+                out[owner] = n
+    return out
